@@ -6,13 +6,15 @@ from pestverif.runner import Ctx
 
 ID = "C15"
 RULE = (
-    "histories: Hypothesis draws a list of up to 30 operations create_parser(grammar from a pool of 6 fixed "
+    "histories: Hypothesis draws a list of up to 30 operations create_parser(grammar from a pool of 7 fixed "
     "grammars using ASCII_*, NEWLINE, Unicode built-ins, WHITESPACE choices (SKIP fusion), silent rules and "
     "the stack, plus 2 generated ones; optimizer None / default / one of 5 custom pass lists), "
     "generate(parser), parse(parser or generated module, rule, succeeding or failing input, start_pos), all "
     "executed in ONE forked process; every observed result (tree, or furthest_pos with expected/unexpected "
     "label maps; generated source text) must equal the result of the same (grammar, optimizer, "
     "interpreter/generated, rule, input, k) computed in a fresh process that does nothing else (memoised). "
+    "first-use order: per pool grammar and pool call i, a fresh process with two parsers parses call i first and "
+    "then every pool call, each compared with the fresh-process result of that call alone. "
     "position sweeps: every pool text parsed on ONE reused parser / module at every start position, len..0 and "
     "0..len, always the same text object, each result compared with a fresh object and an equal distinct text. "
     "schedules: 2-4 threads x 2-3 parse() calls on shared parser objects and generated modules run under a "
@@ -50,6 +52,10 @@ POOL = [
     ('s = @{ "\\"" ~ (!("\\"" | "\\\\") ~ ANY)* ~ "\\"" }\nline = { (!NEWLINE ~ ANY)* ~ NEWLINE? ~ ASCII_DIGIT* }\nu = @{ (!("ab" | "b") ~ ANY)* ~ ANY? }\n',
      [("s", '"ab"'), ("s", '"abc'), ("s", '"a\\b"'), ("s", '""'), ("line", "abc\n12"), ("line", "abcdef"), ("line", "a\r\n1"),
       ("u", "xxab"), ("u", "xxxx"), ("u", "xb"), ("u", "")]),
+    # a plain choice with exactly the alternatives of the WHITESPACE body (anything keyed by "the same set of
+    # choices" is then shared between the squashed choice and the fused, repeated SKIP rule; seeded change S71)
+    ('WHITESPACE = _{ " " | "\t" }\nsep = { " " | "\t" }\nw = { "a" ~ "b" ~ "c" }\nv = ${ "a" ~ sep ~ "b" }\n',
+     [("w", "a  b c"), ("sep", " "), ("v", "a b"), ("sep", "  x"), ("w", "a\t \tb  c"), ("v", "a  b"), ("w", "abc"), ("sep", "")]),
 ]
 CONFIGS = ["raw", "opt", [0], [3], [2, 3], [1, 2, 3, 4], [4, 3, 2, 1, 0]]
 
@@ -579,6 +585,23 @@ def run_shard(ctx: Ctx, spec):
         elif res["results"] != res["seq"]:
             ctx.violation("schedule:result:shared-object", {"kind": "schedule", **req},
                           f"results under the schedule differ from the sequential results: {str(res['results'])[:300]} vs {str(res['seq'])[:300]}")
+    # first-use order: for every pool grammar and every pool call i, a fresh process creates two parsers, parses
+    # call i on the first and then EVERY call alternately on the second and the first; each result must equal
+    # the fresh-process result of that call alone (whatever is compiled or cached lazily at first use must not
+    # depend on which rule or input came first; seeded change S71)
+    orders = [(gi, cfg, i) for gi in range(len(POOL)) for cfg in ("opt", "raw") for i in range(len(POOL[gi][1]))]
+    for j, (gi, cfg, i) in enumerate(orders):
+        if j % 16 != spec["idx"] or (ctx.tier == "quick" and cfg == "raw" and i % 3):
+            continue
+        pc = POOL[gi][1]
+        ops = [("create", 0, gi, cfg), ("create", 1, gi, cfg), ("parse", 0, "int", pc[i][0], pc[i][1], 0)]
+        ops += [("parse", (q + 1) % 2, "int", r, inp, 0) for q, (r, inp) in enumerate(pc)]
+        v, _nt, n = check_history(texts, ops, memo)
+        ctx.evals += n
+        ctx.nt_extra += n
+        ctx.count("first_use_order_histories")
+        for bucket, _i, detail in v[:1]:
+            ctx.violation("order:" + bucket, {"kind": "history", "texts": texts, "ops": [list(o) for o in ops], "bucket": bucket}, detail)
     # position sweeps on one reused object and one text object (seeded change S66)
     sweeps = [(gi, cfg, which) for gi in range(len(POOL)) for cfg in ("opt", "raw") for which in ("int", "gen")]
     for j, obj in enumerate(sweeps):
